@@ -83,6 +83,53 @@ def getItem : Val → Path → Res Val
     | none => throw Err.key
   | _, _ :: _ => throw Err.type
 
+/-- the dotted fallback of `dictattr.__getitem__` (src/pyg_base/_dictattr.py:183-188) for a missing string key: walk
+`dict(res)[k]` over the parts of `key.split('.')` with plain dict lookups.  On a leaf `dict(leaf)` is python's dict
+constructor: `dict('')` and `dict([])` are `{}` (then `KeyError`), a non-empty string raises ValueError, `None`, a number or
+a list of numbers TypeError (other leaves: `Err.other`, not generated) -/
+def getDotted : Val → List String → Res Val
+  | v, [] => pure v
+  | .dict kvs, k :: rest =>
+    match lookup k kvs with
+    | some v => getDotted v rest
+    | none => throw Err.key
+  | .cell (.str s), _ :: _ => if s.isEmpty then throw Err.key else throw Err.value
+  | .list [], _ :: _ => throw Err.key
+  | .list (.cell (.int _) :: _), _ :: _ => throw Err.type
+  | .cell .none, _ :: _ => throw Err.type
+  | .cell (.int _), _ :: _ => throw Err.type
+  | _, _ :: _ => throw Err.other
+
+/-- `tree_getitem(tree, path)` on a tree of `dictattr` / `Dict` nodes (`dotted = true`; for plain dicts `dotted = false`
+and this is `getItem`): a key that is missing and contains a dot is resolved part by part -/
+def getItemC (dotted : Bool) : Val → Path → Res Val
+  | v, [] => pure v
+  | .dict kvs, k :: rest =>
+    match lookup k kvs with
+    | some v => getItemC dotted v rest
+    | none =>
+      if dotted && k.contains '.' then
+        match getDotted (.dict kvs) (k.splitOn ".") with
+        | .ok v => getItemC dotted v rest
+        | .error e => throw e
+      else throw Err.key
+  | _, _ :: _ => throw Err.type
+
+/-- `tree_get(tree, path, default)` (:290-306): the value at the path, `default` when a key is missing or the walk
+reaches a leaf early (`isinstance(res, dict) and i in res`: no dotted fallback) -/
+def treeGet : Val → Path → Val → Val
+  | v, [], _ => v
+  | .dict kvs, k :: rest, d =>
+    match lookup k kvs with
+    | some v => treeGet v rest d
+    | none => d
+  | _, _ :: _, d => d
+
+/-- `tree_setitem(tree, path, value, ignore)` (:224-275; in place, the model returns the new items): `ValueError` for an
+empty path -/
+def treeSetItem (kvs : List (String × Val)) (path : Path) (v : Val) (ignore : List Val) : Res (List (String × Val)) :=
+  if path.isEmpty then throw Err.value else pure (setKVs kvs path v ignore)
+
 mutual
   /-- the recursive merge the property speaks of: `u`'s leaves override (unless ignored), branches
   present on both sides are merged, everything else of `t` is kept; new keys follow in `u`'s order -/
